@@ -126,9 +126,10 @@ pub struct GenCase {
     /// the generator is constructed for another protocol and the public `state.version` field is then
     /// assigned, instead of `Generator::new(version)`; bits 6-7 say which other construction:
     /// 0 `Generator::default()`, 1 `Generator::new(V5)`, 2 `Generator::new(V0)`, 3 `Generator::new` of
-    /// protocol+3 mod 6 with the earlier calls of a reuse history made under that other protocol
+    /// protocol+3 mod 6 with the earlier calls of a reuse history made under that other protocol;
+    /// bit 8 - with bit 0: with_min_opcodes is called before with_max_opcodes instead of after it
     #[serde(default)]
-    pub build_style: u8,
+    pub build_style: u16,
     /// `with_buffer_size(n)` (documented as limiting the pickle size; a no-op in the tree as given)
     #[serde(default)]
     pub bufsize: Option<usize>,
@@ -190,7 +191,7 @@ impl GenCase {
     pub fn build(&self, spy: Option<&SpyLog>) -> Generator {
         let mut g = if self.build_style & 32 != 0 {
             // constructed for another protocol, then the public `state.version` field is assigned
-            let mut g = match self.build_style >> 6 {
+            let mut g = match (self.build_style >> 6) & 3 {
                 0 => Generator::default(),
                 1 => Generator::new(Version::V5),
                 2 => Generator::new(Version::V0),
@@ -205,7 +206,11 @@ impl GenCase {
             g.min_opcodes = self.min_opcodes;
             g.max_opcodes = self.max_opcodes;
         } else if self.build_style & 1 != 0 {
-            g = g.with_max_opcodes(self.max_opcodes).with_min_opcodes(self.min_opcodes);
+            g = if self.build_style & 256 != 0 {
+                g.with_min_opcodes(self.min_opcodes).with_max_opcodes(self.max_opcodes)
+            } else {
+                g.with_max_opcodes(self.max_opcodes).with_min_opcodes(self.min_opcodes)
+            };
         } else {
             g = g.with_opcode_range(self.min_opcodes, self.max_opcodes);
         }
@@ -281,7 +286,7 @@ impl GenCase {
     }
 
     fn warm(&self, g: &mut Generator, spy: Option<&SpyLog>) {
-        let switch = self.build_style & 32 != 0 && self.build_style >> 6 == 3 && self.prior_calls > 0;
+        let switch = self.build_style & 32 != 0 && (self.build_style >> 6) & 3 == 3 && self.prior_calls > 0;
         if switch {
             // the earlier calls of the history ran under the other protocol
             g.state.version = self.other_version();
@@ -658,7 +663,7 @@ pub fn gencase(p: &Profile) -> BoxedStrategy<GenCase> {
         prop_oneof![2 => Just(false), 1 => Just(true)],
         prop_oneof![2 => Just(false), 1 => Just(true)],
         prop_oneof![14 => Just(0u8), 4 => Just(1u8), 2 => Just(2u8)],
-        (prop_oneof![3 => Just(0u8), 2 => 0u8..64, 2 => any::<u8>()], prop_oneof![9 => Just(None), 1 => proptest::sample::select(vec![16usize, 64, 256, 320, 1024, 4096, 1 << 20]).prop_map(Some)]),
+        (prop_oneof![3 => Just(0u16), 2 => 0u16..64, 2 => 0u16..512], prop_oneof![9 => Just(None), 1 => proptest::sample::select(vec![16usize, 64, 256, 320, 1024, 4096, 1 << 20]).prop_map(Some)]),
     )
         .prop_map(move |(protocol, entropy, (min, max), mutators, rate, uns, ext, buf, prior, (style, bufsize))| GenCase {
             protocol,
@@ -741,7 +746,7 @@ pub fn gencase_from_bytes(data: &[u8], unsafe_mode: UnsafeMode) -> GenCase {
         allow_ext: flags & 4 != 0,
         allow_buffer: flags & 8 != 0,
         prior_calls: (flags >> 4) % 3,
-        build_style: (flags >> 6) | ((b(8) & 0x3f) << 2),
+        build_style: (flags >> 6) as u16 | (((b(8) & 0x3f) as u16) << 2) | (((b(5) >> 7) as u16) << 8),
         bufsize: None,
     }
 }
